@@ -876,6 +876,7 @@ fn gen_dir(r: &mut Rng, st: &mut Out) -> Option<GenDir> {
 	// `MappingsDiff::diff` of /repo (all names present, as `diff` requires)
 	let direct = r.chance(3, 5);
 	let mut cfg = MapCfg::basic(2);
+	cfg.top_doc_pct = 25;
 	cfg.absent_pct = if direct { *r.pick(&[0, 15, 35]) } else { 0 };
 	cfg.param_src_names = r.chance(1, 6);
 	cfg.nest_depth = r.range(0, 2);
